@@ -49,9 +49,9 @@ def plan(name, tier):
         mod = sweep.thin(mod, 3)
         # keep every argument with a quantifier under (or over) a modal operator: these logics override both clauses
         fo = [a for i, a in enumerate(fo) if i % 3 == 0 or (('M' in a or 'L' in a) and ('V' in a or 'S' in a))]
-    elif tier != 'quick' and LOGICS[name].modal:
-        # the first-order families mostly repeat the non-modal logic's behaviour; FO-modal arguments are kept
-        fo = [a for i, a in enumerate(fo) if i % 2 == 0 or 'M' in a or 'L' in a]
+    elif LOGICS[name].modal:
+        # the first-order families mostly repeat the non-modal logic's behaviour; FO-modal, identity and three-premise arguments are kept
+        fo = [a for i, a in enumerate(fo) if i % 2 == 0 or 'M' in a or 'L' in a or 'I' in a or a.count(':') >= 3]
     out += [('modal', a) for a in mod]
     out += [('fo', a) for a in fo]
     return out
